@@ -1633,13 +1633,20 @@ impl NotificationProtocol {
                 None => (),
                 Some(peer) => {
                     if let Some(context) = self.peers.get_mut(&peer) {
-                        tracing::trace!(
-                            target: LOG_TARGET,
-                            ?peer,
-                            protocol = %self.protocol,
-                            "notification stream to peer closed",
-                        );
-                        context.state = PeerState::Closed { pending_open: None };
+                        // the notice may be stale: the connection handler that sent it can belong
+                        // to an earlier notification stream and the peer may have moved on since.
+                        // only act on it if the stream currently tracked as open is shutting down.
+                        if let PeerState::Open { shutdown } = &context.state {
+                            if shutdown.is_closed() {
+                                tracing::trace!(
+                                    target: LOG_TARGET,
+                                    ?peer,
+                                    protocol = %self.protocol,
+                                    "notification stream to peer closed",
+                                );
+                                context.state = PeerState::Closed { pending_open: None };
+                            }
+                        }
                     }
                 }
             },
